@@ -360,9 +360,9 @@ def rule_f(ctx: Ctx) -> None:
         for T in constructible:
             N = tm.get(T, values[T])
             n += 1
-            if not isinstance(N, str) or not N.replace("_", "").isalnum():
+            if not isinstance(N, str) or "(" in N:
                 und += 1
-                continue  # multi-word / parameterised names are read by bespoke parser code: not decided
+                continue  # parameterised names are read by bespoke parser code: not decided (multi-word names are tokenizer keywords and are looked up whole)
             T2 = read(N)
             if T2 is None:
                 und += 1
